@@ -115,7 +115,7 @@ class _ReaderOpenFileBase(RawIOBase):
 
     @_raise_if_file_closed
     def read(self, size: int = -1) -> bytes:
-        if size < 0:
+        if size is None or size < 0:
             size = self._info.size - self._seek
         data = self._reader.get_data(self._info, self._seek, size)
         self._seek += len(data)
